@@ -612,7 +612,7 @@ def plan_script(run, prop, tier):
     independently, applies the same API calls, and compares the two graphs completely (and with the model)."""
     acc = Acc()
     datas = ["CA-FE", "00-1A-2B-3C-4D-5E-6F-70-81"]
-    jobs = [("programs <=4 commands, ids {0,1}, vars {x,y}", cfg_scriptgen(5, 4, [0, 1], ["x", "y"], ["foo", "b"], datas), [(2, 5), (16, 64)], 1)]
+    jobs = [("programs <=4 commands, ids {0,1}, vars {x,y}, labels foo and one Greek character", cfg_scriptgen(5, 4, [0, 1], ["x", "y"], ["foo", "%RHO%"], datas), [(2, 5), (16, 64)], 1)]
     if tier == "thorough":
         jobs.append(("programs <=5 commands, ids {0,1}, var {x}", cfg_scriptgen(5, 5, [0, 1], ["x"], ["foo"], ["CA-FE"]), [(2, 5), (3, 9)], 1))
         jobs.append(("programs <=4 commands, ids {0,2,3}, vars {x,y}", cfg_scriptgen(6, 4, [0, 2, 3], ["x", "y"], ["foo", "b"], datas), [(2, 6)], 1))
@@ -1064,7 +1064,7 @@ def warm(run):
         vlib.emit_ts(run, emit_module(inst), cfg_emit(inst, extra))
     vlib.emit_ts(run, "MergeGen", cfg_mergegen(6, [0, 1], [1, 2, 3], 2, 3, 0, True), workers=8)
     vlib.emit_ts(run, "MergeGen", cfg_mergegen(6, [0, 1], [0, 1, 2, 3], 2, 2, 2, False), workers=8)
-    vlib.emit_ts(run, "ScriptGen", cfg_scriptgen(5, 4, [0, 1], ["x", "y"], ["foo", "b"], ["CA-FE", "00-1A-2B-3C-4D-5E-6F-70-81"]), workers=8)
+    vlib.emit_ts(run, "ScriptGen", cfg_scriptgen(5, 4, [0, 1], ["x", "y"], ["foo", "%RHO%"], ["CA-FE", "00-1A-2B-3C-4D-5E-6F-70-81"]), workers=8)
     for mode in ("access", "concat"):
         vlib.emit_ts(run, "HexGen", f"INIT Init\nNEXT Next\nCONSTANTS MaxLen = 11 MaxIdx = 12 Mode = \"{mode}\"\nCHECK_DEADLOCK FALSE\n")
     vlib.emit_ts(run, "LabelGen", "INIT Init\nNEXT Next\nCONSTANTS Full = 4 LongLo = 5 LongHi = 10\nCHECK_DEADLOCK FALSE\n", timeout=3000)
